@@ -328,6 +328,8 @@ class Engine:
                         self.write_place(fr, st[1], v)
                     elif st[0] == 'setdisc':
                         self.set_discriminant(fr, st[1], st[2])
+                    elif st[0] == 'unparsed':
+                        raise Unsupported('MIR statement outside the supported syntax in %s bb%d: %s' % (fn.name, bb, st[1][:120]))
                 term = blk['term']
                 k = term[0]
                 stats['steps'] += 1
@@ -353,6 +355,8 @@ class Engine:
                     bb = term[4]
                 elif k == 'unreachable':
                     raise PanicEx('%s bb%d' % (fn.name, bb), 'MIR unreachable executed (undefined behaviour)')
+                elif k == 'unparsed':
+                    raise Unsupported('MIR terminator outside the supported syntax in %s bb%d: %s' % (fn.name, bb, term[1][:120]))
                 else:
                     raise Unsupported('terminator %r' % (term,))
         finally:
